@@ -54,7 +54,7 @@ def gen(rng, tier):
             # a depot with a finite window end (strict mode may then refuse return arcs): outside the 'always succeeds'
             # precondition, but the heuristic must still either store a genuine solution or raise
             his = [Fraction(nd["hi"]) for nd in case["spec"]["nodes"][1:] if nd["hi"] != "inf"]
-            case["spec"]["nodes"][0]["hi"] = fs(max(his + [Fraction(1)]) + Fraction(rng.randint(-3, 2)))
+            case["spec"]["nodes"][0]["hi"] = fs(max(Fraction(0), max(his + [Fraction(1)]) + Fraction(rng.randint(-3, 2))))
             case["strict"] = True
         case["heur"] = rng.choice(["0", "1", "10", "40", "1000", "5/4"])
         case["twice"] = rng.random() < 0.3
